@@ -33,7 +33,9 @@ func (d *dir) ReadDir(n int) ([]hackpadfs.DirEntry, error) {
 		return nil, io.EOF
 	}
 	if n <= 0 || d.offset+n > len(entries) {
-		d.offset = n
+		// return the entries that remain (everything for a fresh handle) and move to the end
+		entries = entries[d.offset:]
+		d.offset += len(entries)
 	} else {
 		entries = entries[d.offset : d.offset+n]
 		d.offset += n
